@@ -204,6 +204,14 @@ func (a *addrAnalysis) symInt(fn *ssa.Function, v ssa.Value, depth int) string {
 			}
 		}
 	case *ssa.Call:
+		// a single-result integer reading of an operand: toInt(x)
+		if callee := staticCallee(x); callee != nil && callee.Pkg == a.m.sp && len(x.Call.Args) == 1 && isReflectValue(x.Call.Args[0].Type()) && callee.Signature.Results().Len() == 1 {
+			if b, ok := callee.Signature.Results().At(0).Type().(*types.Basic); ok && b.Kind() == types.Int {
+				if o := a.opnd(fn, x.Call.Args[0], depth+1); o != "" {
+					return "int(" + o + ")"
+				}
+			}
+		}
 		switch reflectMethod(x) {
 		case "Len":
 			if o := a.opnd(fn, x.Call.Args[0], depth+1); o != "" {
